@@ -68,7 +68,7 @@ pub fn run_property(ctx: &Ctx) -> Option<Report> {
                 _ => (Monitor::C16, 200_000, 5_000_000, "a cross-cluster SYN was delivered and some delivery was a duplicate or out of order"),
             };
             let mut r = Report::new(&format!(
-                "cases = generated histories (writes/deletes/TTL, clock advances around the grace periods, heartbeats, key GC, liveness evaluations, SYNs, deliveries in any order, drops, duplicates, cuts/heals, late joins, crashes/restarts under a new generation) on 2..5 real nodes exchanging real datagrams, profiles small/truncation/gc/partition/membership; every copy is compared with the owner ledger after every step; non-trivial = {nontrivial}; distinct = by history"
+                "cases = generated histories (writes/deletes/TTL, clock advances around the grace periods, heartbeats, key GC, liveness evaluations, SYNs, deliveries in any order, drops, duplicates, cuts/heals, late joins, crashes/restarts under a new generation, held SYN-ACKs, external catch-up calls fed with a peer's copy) on 2..5 real nodes exchanging real datagrams; generator profiles: small / truncation / gc / partition / membership / trunc-gc (uniform op mixes) and deep / phased / member-phased (focused macro-level and phased generators built to reach mid-reset copies meeting delayed replies, stale peers, skewed death detection); every copy is compared with the owner ledger after every step; non-trivial = {nontrivial}; distinct = by history"
             ));
             r.assume("every ChitchatId is used by one incarnation; restarts use a new generation id; honest nodes only");
             r.assume("the owner's local API is trusted to record the ledger (checked separately by C06/C04)");
